@@ -435,19 +435,42 @@ pub fn execute(job: &HTJob, ctx: Arc<Mutex<Ctx>>, on_deadlock: sched::DeadlockHa
                 }) {
                     continue;
                 }
+                // Attribution: under LRU an entry that a lookup on another thread holds while close() flushes memory is
+                // pinned, the flush (an eviction of everything evictable) passes it over, and it is never written.
+                let close_done = h.calls.iter().filter(|c| c.1 == "close" && c.0 != usize::MAX).filter_map(|c| c.3).max().unwrap_or(u64::MAX);
+                let held = job.cfg.mem_algo.is_lru()
+                    && h.lookups.iter().any(|l0| {
+                        l0.key == k && l0.invoke < close_done && l0.resp.map(|r| r > close_at).unwrap_or(true) && matches!(&l0.res, LookupRes::Hit { ver, .. } if *ver == w.ver)
+                    });
                 for l in h.lookups.iter().filter(|l| l.key == k && l.kind == "after-restart") {
                     if !matches!(&l.res, LookupRes::Hit { ver, .. } if *ver == w.ver) {
                         complaints.push((
-                            "D.lost-on-close".into(),
+                            if held { "D.lost-on-close-entry-held".into() } else { "D.lost-on-close".into() },
                             format!("k{k} v{} was inserted (t{}..{:?}) before a client thread called close() at t{close_at}, but after reopen the lookup gives {:?}", w.ver, w.invoke, w.resp, l.res),
                         ));
                     }
                 }
             }
         }
-        let rs = oracle_r::check(&h, &job.cfg);
+        // Calls made after (or overlapping) a client thread's close() are "ignored rather than corrupting state":
+        // an insert or remove that had not returned when close() was called may or may not take effect, so for the
+        // register oracle it never completes (it cannot supersede anything, but its value may be returned).
+        let client_close = h.calls.iter().filter(|c| c.1 == "close" && c.0 != usize::MAX).map(|c| c.2).min();
+        let mut hr = History::default();
+        hr.writes = h.writes.clone();
+        hr.lookups = h.lookups.clone();
+        hr.leaves = h.leaves.clone();
+        hr.admissions = h.admissions.clone();
+        if let Some(ca) = client_close {
+            for w in hr.writes.iter_mut() {
+                if w.resp.map(|r| r >= ca).unwrap_or(true) {
+                    w.resp = None;
+                }
+            }
+        }
+        let rs = oracle_r::check(&hr, &job.cfg);
         // The divergence rule is the weaker statement: it speaks only where the register oracle is silent.
-        if rs.is_empty() {
+        if rs.is_empty() && client_close.is_none() {
             complaints.extend(divergence(&h));
         }
         for (c, m) in rs {
